@@ -102,6 +102,8 @@ def evaluate(cases, judge_property=True, observed=None):
         case = {"files": c["files"], "zod": c.get("zod", False)}
         if c.get("mappings"):
             case["mappings"] = c["mappings"]
+        if c.get("judge"):
+            case["judge"] = c["judge"]
         if m and m[0] == "runner-error":
             raise vlib.BuildError("runner: %s on %s" % (m, json.dumps(case)[:500]))
         if h.get("skipped"):
@@ -138,7 +140,9 @@ def evaluate(cases, judge_property=True, observed=None):
                     and (i_reexp == ["true"]) == m_reexp and o["rc"] == 0)
         corr = corr_events and corr_gen and syntax is None
         complaints = [(k, n, e == "true") for k, n, e in i_compl]
-        ok = (not judge_property) or (not in_dom) or not complaints
+        # judge_property == "beyond-ascii": the stream's only departure from the domain is the event-name alphabet; the oracle
+        # (one listener per name, subscribed to exactly that name, legal identifier) decides there as well
+        ok = (not judge_property) or (not in_dom and judge_property != "beyond-ascii") or not complaints
         kf = None
         if not ok and all(e for _, _, e in complaints):
             for k, n, _ in complaints:
@@ -291,9 +295,13 @@ def run(rep):
     vlib.build_repo_bin()
     rng = random.Random(rep.seed)
     thorough = rep.tier == "thorough"
-    streams = [("corpus", corpus_cases(), True),
+    corpus = corpus_cases()
+    streams = [("corpus", [c for c in corpus if c.get("judge") != "beyond-ascii"], True),
+               ("corpus-beyond-ascii", [c for c in corpus if c.get("judge") == "beyond-ascii"], "beyond-ascii"),
                ("placements", G.enum_placements(), True),
                ("fnshapes", G.enum_fnshapes(), True),
+               ("receiver-types", G.enum_receiver_types(), True),
+               ("unicode-names", G.enum_unicode_names(), "beyond-ascii"),
                ("compositions", G.enum_compositions(rng, 6000 if thorough else 500), True),
                ("mappings", G.enum_mappings(), True),
                ("rawidents", G.enum_raw_idents(), True),
@@ -315,6 +323,14 @@ def run(rep):
     rep.add("histories", outs)
 
 
+def judge_mode(stream, case):
+    if stream == "malformed":
+        return False
+    if stream == "unicode-names" or case.get("judge") == "beyond-ascii":
+        return "beyond-ascii"
+    return True
+
+
 def replay(rep, payload):
     vlib.build_harness("c12")
     vlib.build_runner("c12")
@@ -324,4 +340,4 @@ def replay(rep, payload):
         if "history" in it["case"]:
             rep.add("histories", evaluate_histories([it["case"]["history"]]))
         else:
-            rep.add(it.get("stream", "replay"), evaluate([dict(it["case"])], it.get("stream") != "malformed"))
+            rep.add(it.get("stream", "replay"), evaluate([dict(it["case"])], judge_mode(it.get("stream"), it["case"])))
